@@ -18,7 +18,16 @@ Definition chunk (l : list Z) (w i : nat) : list Z :=
   let lo := (i * n) / w in let hi := ((i + 1) * n) / w in
   firstn (hi - lo) (skipn lo l).
 
-Definition model_of (construct : Z) (w cap : nat) (input : list Z) : option (net * state) :=
+(* GenerateParallel: variant = 10 * options + behaviour of the generator after its n values
+   (behaviour 2 = fails for ever, 3 = panics for ever, both ignoring the context; options 1 = ContinueOnError,
+   2 = ContinueOnPanic, 3 = both). The failure is retried for ever (GSkip) when the options say so,
+   otherwise it aborts the run (GFail); every other generator just ends (GEof). *)
+Definition gend_of (variant : Z) : gend :=
+  let o := (variant / 10)%Z in let b := (variant mod 10)%Z in
+  if (Z.eqb b 2 && (Z.eqb o 1 || Z.eqb o 3)) || (Z.eqb b 3 && (Z.eqb o 2 || Z.eqb o 3)) then GSkip
+  else if Z.eqb b 2 || Z.eqb b 3 then GFail else GEof.
+
+Definition model_of (construct mode variant : Z) (w cap : nat) (input : list Z) : option (net * state) :=
   let is k := Z.eqb construct k in
   if is 1%Z then Some (split_net w, split_init w input)
   else if is 2%Z then Some (pp_net w, pp_init w input)
@@ -26,9 +35,9 @@ Definition model_of (construct : Z) (w cap : nat) (input : list Z) : option (net
   else if is 4%Z then Some (pbuf_net w, pbuf_init w input)
   else if is 5%Z then Some (buffer_net, buffer_init cap input)
   else if is 6%Z then Some (fanin_net w (fun j => j), fanin_init w 0 (map (chunk input w) (seq 0 w)))
-  else if is 7%Z then Some (fanin_net w (fun _ => 0), fanin_init w (2 * w + 1) [input])
+  else if is 7%Z then Some (gen_net w (gend_of variant), gen_init w input)
   else if is 9%Z || is 10%Z || is 11%Z || is 13%Z || is 14%Z then Some (pump_net, pump_init input)
-  else if is 12%Z then Some (chan_net, chan_init cap input)
+  else if is 12%Z then (if Z.eqb mode 9 then Some (range_net, range_init cap input) else Some (chan_net, chan_init cap input))
   else None.
 
 (* the stop actions of a mode; for Split the outputs are goroutines 3.., output j has context 3+j *)
@@ -39,6 +48,8 @@ Definition stops (construct : Z) (w : nat) (mode variant : Z) : list label :=
   if m 1%Z || m 5%Z then closes
   else if m 2%Z || m 6%Z then [LCancel 0]
   else if m 3%Z then closes ++ [LCancel 0]
+  else if m 7%Z || m 8%Z then [LClose 3]       (* Split: output 0 (goroutine 3, context 3) is closed / its context cancelled *)
+  else if m 9%Z then [LCancel 1]               (* the context the channel was built with *)
   else if m 4%Z then
     let ab := if Z.eqb variant 0 then 0 else w - 1 in
     LAbandon (3 + ab) :: map (fun j => LClose (3 + j)) (filter (fun j => negb (j =? ab)) (seq 0 w))
@@ -71,12 +82,16 @@ Definition model_outcome (construct : Z) (n w cap k : nat) (mode variant : Z) (r
   (* a source that blocks after its n items (modes 5, 6) keeps the pump in a ctx-guarded wait; here that
      is a pump that still has items and blocks in its ctx-guarded send *)
   let blocked := Z.eqb mode 5 || Z.eqb mode 6 in
-  let input := input_of (if blocked then n + 3 else n) in
-  match model_of construct w cap input with
+  let input := input_of (if blocked && negb (Z.eqb construct 7 && negb (Z.eqb (variant mod 10) 0)) then n + 3 else n) in
+  match model_of construct mode variant w cap input with
   | None => None
   | Some (N, s0) =>
       let fuel := 60 * (n + w + 6) + 200 in
       let s := if Z.eqb mode 0 then run N fuel rot false None s0
+               else if Z.eqb construct 1 && (Z.eqb mode 7 || Z.eqb mode 8)
+                    then (* Split, one consumer per output: output 0 alone takes k items (it starts the splitter), is stopped,
+                            and then everybody runs: the other consumers read until their output ends *)
+                         run N fuel (rot + 7) false None (apply N (stops construct w mode variant) (run_only N fuel [1; 3] k s0))
                else if Z.eqb construct 1
                     then (* Split: sequential consumers; output 0 (goroutine 3) is advanced first and starts the splitter *)
                          run N fuel (rot + 7) false None (apply N (stops construct w mode variant) (seq_take N fuel w k 0 s0))
